@@ -55,7 +55,7 @@ def inherited(attrs):
     return [dict(a, inherited=True) for a in attrs]
 
 
-CHILD = cls([attr("v", TINT, "lit", I(0)), attr("ws", TL(TINT), "lit", L(), item="w")])
+CHILD = cls([attr("v", TINT, "lit", I(1)), attr("ws", TL(TINT), "lit", L(), item="w")])          # (v defaults to 1: a keyword v=0 is falsy AND differs from the default)
 KCHILD = cls([attr("k", TSTR), attr("v", TINT, "lit", I(0))], key="k")
 
 CH0_ = {"t": "obj", "c": "Child", "a": {"v": I(0), "ws": L()}, "x": {"_": MISSING}}
@@ -202,9 +202,11 @@ SCENARIOS = {
                     dict(attr("child", TOPT(TU("Child")), "lit", NONE), inherited=True, redefault=CH0_)], bases=["Base"], plain=True)}},
     # a spec subclass that asks for do_not_copy on an inherited default_factory attribute, and re-defaults an invalidated_by attribute
     "inherit_dnc": {"root": "Sub", "classes": {
-        "Base": cls(INH_BASE + [attr("d", TINT, "attr", I(0), invby=["n"])]),
+        "Base": cls(INH_BASE + [attr("d", TINT, "attr", I(0), invby=["n"]), attr("lits", TL(TINT), "lit", L(), item="lit"), attr("e", TINT, "attr", I(0), invby=["n"])]),
         "Sub": cls([dict(INH_BASE[0], inherited=True), dict(INH_BASE[1], inherited=True, dnc=True),
-                    dict(attr("d", TINT, "attr", I(0), invby=["n"]), inherited=True, redefault=I(2))], bases=["Base"])}},
+                    dict(attr("e", TINT, "attr", I(0), invby=["n"]), inherited=True, dnc=True),          # only its copy policy changes: still invalidated by n
+                    dict(attr("d", TINT, "attr", I(0), invby=["n"]), inherited=True, redefault=I(2)),
+                    dict(attr("lits", TL(TINT), "lit", L(), item="lit"), inherited=True, redefault=L(I(1)))], bases=["Base"])}},
     # defaults that do not conform to the attribute's type: a plain subclass re-defaulting with another type, a collection defaulting to None
     "bad_default": {"root": "Sub", "classes": {
         "Base": cls([attr("y", TINT, "lit", I(0)), attr("nums", TL(TINT), "lit", NONE, item="num")]),
@@ -226,6 +228,24 @@ SCENARIOS = {
         "Base": cls(INH_BASE),
         "Tuned": cls([dict(INH_BASE[0], inherited=True, redefault=I(2)), dict(INH_BASE[1], inherited=True)], bases=["Base"], plain=True),
         "Leaf": cls([dict(INH_BASE[0], inherited=True, dv_ct=I(2)), dict(INH_BASE[1], inherited=True), attr("m", TINT, "lit", I(1))], bases=["Tuned"])}},
+    # the class under test has a decorated subclass that RE-DECLARES one of its attributes with another type (and a sibling adding an attribute):
+    # bootstrapping those must leave the parent's own specification alone
+    "sibling_redeclare": {"root": "P", "classes": {
+        "P": cls([attr("n", TINT, "lit", I(0)), attr("nums", TL(TINT), "factory", L(), item="num")]),
+        "Kid": cls([attr("n", TSTR, "lit", S("a")), dict(attr("nums", TL(TINT), "factory", L(), item="num"), inherited=True)], bases=["P"]),
+        "Other": cls([dict(attr("n", TINT, "lit", I(0)), inherited=True), dict(attr("nums", TL(TINT), "factory", L(), item="num"), inherited=True),
+                      attr("extra", TSTR, "lit", S("b"))], bases=["P"])}},
+    # a do_not_copy collection with an item preparer that rewrites some items and refuses others: the constructor works on the caller's object
+    "dnc_iprep": {"root": "P", "classes": {"P": cls([
+        dict(attr("nums", TL(TINT), "factory", L(), dnc=True, iprep="pclip0", item="num"), dnc_decl="attr"),
+        attr("n", TINT, "lit", I(1)),
+    ])}},
+    # a do_not_copy attribute whose default a plain subclass overrides with a mutable value: "never copied" is about copies of instances,
+    # a default handed out on reset / del / construction is still a fresh object
+    "dnc_plain_redefault": {"root": "Sub", "classes": {
+        "Base": cls([attr("bigs", TL(TINT), "lit", L(), dnc=True, item="big"), attr("n", TINT, "lit", I(0))]),
+        "Sub": cls([dict(attr("bigs", TL(TINT), "lit", L(), dnc=True, item="big"), inherited=True, redefault=L(I(2))),
+                    dict(attr("n", TINT, "lit", I(0)), inherited=True)], bases=["Base"], plain=True)}},
     "eager": {"root": "P", "classes": {"P": cls([
         attr("c", TINT, "field", I(2)),
         attr("nums", TL(TINT), "factory", L(), item="num"),
@@ -287,6 +307,7 @@ def tla_scenario(scn):
                      "spec": {a["name"]: {k: (a["dv_ct"] if k == "dv" and a.get("dv_ct") is not None else a["redefault"] if k == "dv" and a.get("redefault") is not None else a[k])
                                           for k in ("ty", "dk", "dv", "dnc", "invby", "prep", "iprep", "item")} for a in c["attrs"]},
                      "frozen": c["frozen"], "dnc": c["dnc"], "key": c["key"],
+                     "post": bool(c.get("post_init") or c.get("post_set") or c.get("post_keep")),          # a __post_init__ hook the model does not describe
                      "props": [{k: p[k] for k in ("name", "getter", "cache", "invby")} for p in c["props"]]}
     return ct
 
@@ -486,7 +507,7 @@ def pools_for(scn, root):
             sub = T["c"]
             if sub == "Child":
                 p["vp"] = [CH0, CH1, D((S("v"), I(1))), D((S("v"), S("bad"))), D((S("zz"), I(1))), I(3), MISSING]
-                p["kwp"] = [[], kws(("v", I(2))), kws(("v", S("bad"))), kws(("ws", L(I(1), I(2))), ("v", I(1)))]
+                p["kwp"] = [[], kws(("v", I(2))), kws(("v", I(0))), kws(("v", S("bad"))), kws(("ws", L(I(1), I(2))), ("v", I(1))), kws(("ws", L()), ("v", I(0)))]
                 p["fp"] = ["bumpv", "zero", "boom", "none", "shared"]
                 if a["prep"] == "plookup":
                     p["vp"] = p["vp"] + [S("s")]
@@ -506,7 +527,7 @@ def pools_for(scn, root):
                 mk = L if k == "list" else KL
                 p["vp"] = [mk(), mk(good[0]), mk(good[1], good[0]), TUP(good[0], good[1]), NONE, L(items[-1] if items[-1] != MISSING else I(7)), I(5), MISSING]
                 if it == TINT:
-                    p["vp"] += [L(I(2), I(2)), L(I(1), S("a"))]
+                    p["vp"] += [L(I(2), I(2)), L(I(1), S("a")), L(I(2), I(0))]
                 if it == TU("KChild"):
                     p["vp"] += [L(S("c")), L(KC("a"), KC("a", 1))]
                     if k == "klist":      # already-keyed containers holding raw keys / foreign items (re-validated item by item)
